@@ -17,6 +17,7 @@ func init() {
 			"C08.3 the rejection is answered with error code 400; " +
 			"C08.4 numbers emitted by the client are binding.number, written once from assignChannelNumber, and bindingManager.next stays in [0x4000,0x7FFF] by induction over all its stores; " +
 			"C08.6 (=C02.3) AddrEqual compares IP (net.IP.Equal, so 4- and 16-byte spellings agree) and port of both arguments, and the by-address / by-number lookups return only elements read from the live table; " +
+			"C08.8 (=C13.10) keys made from net/netip values are unmapped first, so one peer spelled in 4-byte and in IPv4-mapped form is one key for the conflict tests; " +
 			"C08.7 (=C02.1/C02.4) every write toward the client is guarded by a lookup made for the source of the very read that produced the datagram, on the owning allocation's socket and address; " +
 			"C08.5 IsChannelData, ChannelData.Decode, consumeSingleTURNFrame and ChannelNumber.Valid all decide through the one predicate isChannelNumberValid whose bounds are the constants 0x4000 and 0x7FFF.",
 		NotCovered: "the bijection over histories with expiry (dynamic); concurrent ChannelBind requests on one allocation (serialised by the listener goroutine, not checked here).",
@@ -401,6 +402,7 @@ func runC08(c *Ctx) {
 	// very datagram's source (a binding remembered from an earlier iteration may have expired
 	// and its number may belong to another peer by now)
 	ruleClientSocketWrites(c, "C08.7", "C08.7d")
+	ruleNetipUnmapped(c, "C08.8", "allocation", "ipnet", "server")
 
 	// ---- C08.5
 	c.Rule("C08.5", "one range predicate: IsChannelData, (*ChannelData).Decode, consumeSingleTURNFrame and ChannelNumber.Valid each reach isChannelNumberValid (statically, depth ≤ 2) and contain no other comparison of a channel number with constants", 4)
